@@ -2450,6 +2450,10 @@ def _merge_nested_if(s):
         inner, t = s.body[0], s.test
         vals = (list(t.values) if isinstance(t, ast.BoolOp) and isinstance(t.op, ast.And) else [t]) + (list(inner.test.values) if isinstance(inner.test, ast.BoolOp) and isinstance(inner.test.op, ast.And) else [inner.test])
         s = _loc(ast.If(test=_loc(ast.BoolOp(op=ast.And(), values=vals), t), body=inner.body, orelse=[]), s)
+    # if a or b: (if a: A else: B) else: C   ->   if a: A elif b: B else: C      (a a plain name)
+    if isinstance(s, ast.If) and isinstance(s.test, ast.BoolOp) and isinstance(s.test.op, ast.Or) and len(s.test.values) == 2 and isinstance(s.test.values[0], ast.Name) and len(s.body) == 1 and isinstance(s.body[0], ast.If) and s.body[0].orelse and isinstance(s.body[0].test, ast.Name) and s.body[0].test.id == s.test.values[0].id:
+        inner = s.body[0]
+        s = _loc(ast.If(test=s.test.values[0], body=inner.body, orelse=[_loc(ast.If(test=s.test.values[1], body=inner.orelse, orelse=s.orelse), inner)]), s)
     # if a: (if b: X else: Y) else: X  ->  if a and not b: Y else: X      (.. else: Y) else: Y -> if a and b: X else: Y
     if isinstance(s, ast.If) and s.orelse and len(s.body) == 1 and isinstance(s.body[0], ast.If) and s.body[0].orelse and not any(isinstance(n, ast.NamedExpr) for n in ast.walk(s.body[0].test)) and not any(isinstance(n, ast.NamedExpr) for n in ast.walk(s.test)):
         inner, t = s.body[0], s.test
@@ -2628,7 +2632,29 @@ def _subst_pure_walrus(fnode):
     return done
 
 
+def _own_loop_nodes(st):
+    """nodes of a statement that belong to the enclosing loop (not to a loop nested inside it)"""
+    yield st
+    for c in ast.iter_child_nodes(st):
+        if isinstance(c, (ast.For, ast.AsyncFor, ast.While, ast.FunctionDef, ast.AsyncFunctionDef, ast.Lambda, ast.ClassDef)):
+            continue
+        yield from _own_loop_nodes(c)
+
+
+def _tail_return_loop(fn):
+    """the last statement of a function that returns nothing is `while True:` whose first statement is `if C: return`:
+    leaving the function there is leaving the loop: `if C: break`"""
+    if not fn.body or _returns_value(fn):
+        return
+    last = fn.body[-1]
+    if isinstance(last, ast.While) and isinstance(last.test, ast.Constant) and last.test.value is True and not last.orelse and last.body and isinstance(last.body[0], ast.If):
+        first = last.body[0]
+        if len(first.body) == 1 and isinstance(first.body[0], ast.Return) and first.body[0].value is None:
+            first.body = [_loc(ast.Break(), first.body[0])]
+
+
 def _canon_function(s):
+    _tail_return_loop(s)
     _subst_pure_walrus(s)
     # a keyword-only marker on a private function only restricts how it may be called: for the analysis the parameters
     # are ordinary ones (every call site of a valid program passes them by name)
@@ -2674,6 +2700,19 @@ def _canon_stmt(s):
     elif isinstance(s, ast.If):
         s.body = canon_block(s.body)
         s.orelse = canon_block(s.orelse)
+    elif isinstance(s, ast.While) and isinstance(s.test, ast.Constant) and s.test.value is True and not s.orelse and s.body and isinstance(s.body[0], ast.If) and len(s.body[0].body) == 1 and isinstance(s.body[0].body[0], ast.Break) and not any(isinstance(x, ast.NamedExpr) for x in ast.walk(s.body[0].test)) and not any(isinstance(x, ast.Break) for st_ in (list(s.body[0].orelse) + list(s.body[1:])) for x in _own_loop_nodes(st_)):
+        # while True: if C: break; REST   ==   while not C: REST
+        first = s.body[0]
+        rest = list(first.orelse) + list(s.body[1:])
+        new_loop = _loc(ast.While(test=ExprCanon().visit(negate(copy.deepcopy(first.test))), body=rest or [_loc(ast.Pass(), s)], orelse=[]), s)
+        ast.fix_missing_locations(new_loop)
+        return _canon_stmt(new_loop)
+    elif isinstance(s, ast.For) and isinstance(s.iter, ast.Call) and ast.unparse(s.iter.func) in ("chain", "itertools.chain") and len(s.iter.args) >= 2 and not s.iter.keywords and not s.orelse and not any(isinstance(a_, ast.Starred) for a_ in s.iter.args) and not any(isinstance(x, ast.Break) for st_ in s.body for x in _own_loop_nodes(st_)) and all(isinstance(a_, (ast.Name, ast.GeneratorExp, ast.Attribute, ast.Subscript)) for a_ in s.iter.args):
+        # for x in chain(A, B): S   ==   for x in A: S; for x in B: S     (no break: every part is walked to its end or left by return)
+        loops = [_loc(ast.For(target=copy.deepcopy(s.target), iter=a_, body=copy.deepcopy(s.body), orelse=[], type_comment=None), s) for a_ in s.iter.args]
+        shell = _loc(ast.If(test=_loc(ast.Constant(value=True), s), body=loops, orelse=[]), s)
+        ast.fix_missing_locations(shell)
+        return _canon_stmt(shell)
     elif isinstance(s, (ast.For, ast.AsyncFor, ast.While)):
         if isinstance(s, ast.For):
             # for T in iter(X)  ==  for T in X
